@@ -99,6 +99,7 @@ func loadProgram(repo string, goarch string) (*Program, error) {
 			return nil, fmt.Errorf("package %s not loaded", need)
 		}
 	}
+	computeCursorParams(p)
 	return p, nil
 }
 
